@@ -176,6 +176,10 @@ func NewExprLexer(src string) *ExprLexer {
 	l.scan.Error = func(_ *scanner.Scanner, m string) {
 		l.error(fmt.Sprintf("scan error while lexing expression: %s", m))
 	}
+	if strings.HasPrefix(src, "\uFEFF") {
+		// text/scanner silently skips byte order mark at the start of input but it is not allowed in expression
+		l.error("got unexpected character '\\ufeff' (byte order mark) at the start of expression")
+	}
 	return l
 }
 
